@@ -30,9 +30,13 @@ def tail_after_last_go(out):
 
 def rand_history(rng):
     H = []
-    for _ in range(rng.randrange(1, 5)):
+    for blk in range(rng.randrange(1, 5)):
         c = rng.random()
-        if c < 0.5:
+        if blk == 0 and c < 0.3:
+            pass                  # no position command yet: searches on the start-up position with an empty game history
+        elif blk > 0 and c < 0.15:
+            H.append((0, 'ucinewgame'))   # a reset in the middle, possibly followed by searches without a new position command
+        elif c < 0.5:
             g = rng.choice(GAMES); k = rng.randrange(0, len(g) + 1)
             H.append((0, 'position startpos' + (' moves ' + ' '.join(g[:k]) if k else '')))
         else:
